@@ -1,4 +1,14 @@
 TEXTS = {
+ "C01": {
+  "text": "Lean theorem C01_frame_partial proves, for every entry list with tidy link targets (no '..' after a name), every reader fault position and every outcome, that Unpack changes no filesystem path outside dst in the model (unbounded archive length, depth and names; entry orders and repetitions are the list's). The hypothesis is exactly the complement of the recorded open finding F3, for which the closed counterexample C01_cex_write_through_link is proved and replayed against the real code as KNOWN-FINDING. The model (Unpack.lean over FS.lean) runs next to the real Unpack in a fresh arena on every check and whole-arena dumps are compared; the implementation-level oracle snapshots everything outside dst (incl. ctime/inode).",
+  "note": "Trusted: Lean kernel; the FS model (validated by the lane, root privileges); tar decoding. Not modelled: hard links, mount points, concurrent modification of dst. With an allow-list the allow-listed places are exempt.",
+  "technique": "Lean 4 proof (invariant over the entry loop + kernel path-resolution lemma) + differential correspondence on a real filesystem",
+ },
+ "C04": {
+  "text": "Lean theorems prove that after Unpack — whatever it returns — every symlink under dst resolves physically (through any chain of links, fuel-independent) to a place under dst, for all archives with tidy link targets (C04_safe_after_unpack_partial via the syntactic invariant AllGood, C04_allGood_safe), that rejected targets make the step fail with illegal-slug without creating the link (C04_reject), and that the separator-aware containment test is component-prefix containment (isWithin_iff). Open findings F3 ('..' after a name; C04_cex_dotdot_after_link) and F12 (absolute in-dst targets accepted) are reported as KNOWN-FINDING from the oracle. Correspondence as for C01; the oracle walks dst and resolves each link with Lstat/Readlink.",
+  "note": "Trusted: Lean kernel; FS model; tar decoding. Allow-listed targets are exempt as the property says.",
+  "technique": "Lean 4 proof (syntactic link invariant implies physical containment) + differential correspondence + physical-resolution oracle",
+ },
  "C12": {
   "text": "Unpack part (Pack-writer and bundle-builder parts are added as their lanes land): Lean theorems over the entry-loop model prove for every archive and every fault position that a successful run equals the fault-free run (C12_unpack_ok_complete), that a fault that is reached is always reported (C12_unpack_header_fault_reported, C12_unpack_body_fault_reported), that a reader fault is never reported as a policy rejection (C12_fault_never_illegal) and that every illegal-slug result has a culprit entry (C12_illegal_has_culprit). The model runs next to the real Unpack with the tar stream cut at every position (quick: a stride; thorough: every byte) and full filesystem dumps are compared; gzip-level faults are judged by the oracle.",
   "note": "Trusted: Lean kernel; FS model; archive/tar+gzip as decoder (the cut position is mapped to the model's fault by decoding with the same library). Builder and Pack parts of C12 are not yet claimed by this check.",
